@@ -45,11 +45,15 @@ func (s *subscriptionsState) mergeSubscriptions(subscriptions []*api.Subscriptio
 }
 
 func (s *subscriptionsState) dump(event *api.StateBroadcastEvent) {
-	subscriptions := s.All()
-	for _, subscription := range subscriptions {
-		subscription := subscription // do not alias the loop variable
-		event.Subscriptions = append(event.Subscriptions, &subscription)
-	}
+	// a snapshot carries removed entries too, or a node that missed a removal would never learn of it
+	s.mu.Lock()
+	defer s.mu.Unlock()
+	s.subscriptions.Iterate(func(b []byte) {
+		local := &api.SubscriptionList{}
+		if proto.Unmarshal(b, local) == nil {
+			event.Subscriptions = append(event.Subscriptions, local.Subscriptions...)
+		}
+	})
 }
 
 func (s *subscriptionsState) Create(sessionID string, pattern []byte, qos int32) error {
